@@ -15,9 +15,10 @@ PROVED = ("get_window: restrict-mode slice = exactly the positions with start <=
           "get_rejects_inverted; get_nearest: x.get(start) returns slice (i, i+1) of a sample at least as close to start as every other "
           "(any non-empty sorted series, start before / inside / after the data, ties to the later sample, Python's wrap-around t[-1] read); "
           "trial_rows / trialRow_mem: to_trial_tensor has one row per trial, all equally long, sample k in row i iff start_i <= t[k] <= end_i, "
-          "occupied cells consecutive in time order at the start (align=start) or the end (align=end) of the row, the rest padding")
-NOT_PROVED = ("before_t / after_t / closest_t with end (model correspondence), trial_count (executable model trialCount = count, then count.get per "
-              "trial, rows aligned and trimmed: compared cell by cell, no theorem), warp == count: oracle")
+          "occupied cells consecutive in time order at the start (align=start) or the end (align=end) of the row, the rest padding; "
+          "trialCount_rows: row i of trial_count, read without padding, = the counts of exactly the bins of count whose centre lies in "
+          "trial i, in order, and the preallocated width always suffices (canonical trials, any bin size, both alignments)")
+NOT_PROVED = ("before_t / after_t / closest_t with end (model correspondence); warp == count: oracle")
 ASSUMPTIONS = ["series non-empty and sorted (C04)"]
 MODES = ["before_t", "after_t", "closest_t", "restrict"]
 
